@@ -23,6 +23,14 @@ NOTES = {
  "C19-read-len-hoisted": ("C19", "a frame payload that is not obtained in one read while the next frame's bytes are already waiting", ""),
  "C20-tag-counter-reset-when-idle": ("C20", "a call times out at the caller while the peer's deadline is still running (transit takes time), nothing else is outstanding, and a new call is made before the late answer arrives", "missed by the first version (zero transit time: the two deadlines coincide); links with transit time on the virtual clock and the timed-out-then-call-again scenario were added"),
  "C05-no-terminate-before-running": ("C05", "an actor that linked children in pre_start and then exits before it ever ran (pre_start Err / panic, cancelled spawn future, refused link)", "missed by the first version of C05 (caught by C08's 'the actor still has children'); start-up failure scenarios with a two-level linked subtree were added to C05"),
+ # ---- second round (a different place and mechanism was asked for) ----
+ "C04b-draining-supervisor-refuses-events": ("C04", "the supervisor is draining a backlog (alive, status Draining) when the child exits: send_supervisor_evt now refuses events for status >= Draining", "missed at first (supervisors were idle or busy, never draining); draining-supervisor scenarios were added to C04"),
+ "C06b-cleanup-on-every-advance": ("C06", "a successor takes the name while the old holder is inside post_stop; the second clean-up (on the Stopped transition) removes the successor's registration", "caught by C10 from the start; C06 (whose statement has 'exit cleanup runs once') had no successor in play and missed it: cleanup-once units were added to C06"),
+ "C09b-zero-timeout-means-none": ("C09", "call with a timeout of exactly zero and a callee that keeps the port: the caller hangs", "missed at first (timeouts were 3..20 ms); zero-timeout scenarios for call, multi_call and call_and_forward were added"),
+ "C12b-zero-period-fast-path": ("C12", "a zero or sub-millisecond one-shot period: the message is sent synchronously inside send_after, so it is early and cannot be aborted", "missed at first (periods were whole milliseconds and aborts happened after an await); microsecond periods and an abort issued before the timer task could run were added"),
+ "C13b-grown-worker-not-indexed": ("C13", "the pool is grown after start-up and a worker of a new slot dies with jobs queued for it", ""),
+ "C16b-v2-swap-remove-skips-subscriber": ("C16", "output-port-v2, a stopped subscriber that is not last in the list, and a publication after the stop", ""),
+ "C19b-external-session-ignores-frame-limit": ("C19", "a node configured with a small inbound frame limit, a session over a user-supplied transport, and a declared length between the limit and 16 MiB", "missed at first (the configured limit was only exercised on the frame reader in isolation); live NodeServer sessions with a 64-byte limit were added"),
 }
 for d in sorted(glob.glob("/verif/seeded/*")):
     sid = os.path.basename(d)
